@@ -304,6 +304,10 @@ def run(rep, tier, replay=None):
     layout_rule(rep, prog, vp)
     transform_rule(rep, prog, vp)
     calculate_rule(rep, prog, vp)
+    from .common import enum_tables_rule
+    enum_tables_rule(rep, prog, "R6", ["adsb_deku::Sign", "adsb_deku::adsb::DirectionEW", "adsb_deku::adsb::DirectionNS", "adsb_deku::adsb::StatusForGroundTrack"],
+                     "direction / sign bits: 0 selects the positive (east, north, up, above) meaning, 1 the negative one")
+    rep.assume("the naming of the vertical-rate source bit (bit 1 rendered as GNSS) is pinned by the repository's own test vectors and is not compared with DO-260B")
     rep.assume("f32/f64 rounding of track and speed is not decided: formulas are compared as normal forms, integer parts as exact tables")
     return rep.finish(
         "R1: type-19 fields and the subtype-selected sub-structure read the DO-260B slices MSB-first (from the decode model). R2: airspeed and "
